@@ -2,8 +2,8 @@
 SPECIFICATION ISpecH
 CONSTANTS
   Keys <- K3
-  Bounds <- B3small
-  OpenRanges <- OR3
+  Bounds <- BNone
+  OpenRanges <- OR3b
   BaseInit <- BaseA
   SetVals <- ValById
   MaxW = 1
